@@ -36,7 +36,19 @@ func (s *gRPCServer) Close() error {
 }
 
 func (s *gRPCServer) Shutdown(ctx context.Context) error {
-	s.server.GracefulStop()
+	// stop gracefully but not longer than the context allows:
+	// a stream which never ends must not block the shutdown forever
+	done := make(chan struct{})
+	go func() {
+		s.server.GracefulStop()
+		close(done)
+	}()
+	select {
+	case <-done:
+	case <-ctx.Done():
+		s.server.Stop()
+		<-done
+	}
 	return nil
 }
 
